@@ -32,13 +32,15 @@ Fillers == {
     "Output", "Append", "Rem", "1", "0", "-1", "2.5", "32768", "99999999999", "&HFF", "&H", "1E5", "1.",
     ".5", "1#", "\"s\"", "\"\"", "\"s", "(1)", "((1))", "(", ")", "1 +", "+ 1", "N% + 1", "N% = 1",
     "\"a\" + \"b\"", "S$ + 1", "-N%", "NOT N%", "1, 2", "1; 2", "1 / 0", "N% MOD 0", "1 AND S$",
-    "S$ < \"b\"", "1 < S$", "#1", "", " ", ":", "'", ",", ";", "=", "1 TO 2", "-", "- -1", "(N%", "N%)" }
+    "S$ < \"b\"", "1 < S$", "#1", "8", "80", "25", "F$", "A", "Z", "X", "Qq", "Pq%", "\"T.TXT\"", "\"##\"",
+    "", " ", ":", "'", ",", ";", "=", "1 TO 2", "-", "- -1", "(N%", "N%)" }
 
 Core == {
     "N%", "S$", "Arr(1)", "Arr", "Rec.X", "RecArr(1).X", "Rec", "Undef", "Undef(1)", "MyConst", "MySub",
     "MyFn%", "MyFn%(1)", "MyFn%(1,2)", "MyType", "MyLabel", "Str", "Len", "Len(S$)", "Str$(1)", "Mid$(S$,1)",
     "Cls", "End", "Next", "Print", "As", "1", "0", "-1", "2.5", "99999999999", "\"s\"", "\"\"", "(1)", "1 +",
-    "N% + 1", "S$ + 1", "1, 2", "1 / 0", "", "#1", "Arr(MyFn%(1))", "RecArr(MyFn%(1)).X" }
+    "N% + 1", "S$ + 1", "1, 2", "1 / 0", "", "#1", "Arr(MyFn%(1))", "RecArr(MyFn%(1)).X", "\"##\"", "Qq",
+    "Integer", "8", "F$", "\"T.TXT\"", "Varptr(N%)", "80", "25", "A", "Z", "X", "RecArr", "Pq%" }
 
 OneSlot == {
     "print", "print-file", "lprint", "bare", "dim", "dim-shared", "if-block", "elseif", "while", "do-while",
